@@ -63,6 +63,15 @@ def _check_returned(case):
 
 
 def check_handbuilt(case):
+    if case.get("shift"):
+        # times far from 0 and not float32-exact: references use the float32-rounded (start, end, duration) triple
+        sh = case["shift"]
+        cont = case["continuum"]
+        case = dict(case, continuum=dict(cont, units=[[a, s + sh, e + sh, l] for a, s, e, l in cont["units"]]))
+        with oracle.scale_floor(case["dissim"]["delta"]), oracle.f32_inputs():
+            info = _check_handbuilt(case)
+        info["classes"] = list(info["classes"]) + ["large-inexact-times"]
+        return info
     with oracle.scale_floor(case["dissim"]["delta"]):
         return _check_handbuilt(case)
 
@@ -171,6 +180,7 @@ def handbuilt_cases(draw):
     cs["groups"] = draw(st.lists(st.lists(slot, min_size=n, max_size=n), min_size=1, max_size=8))
     cs["attach"] = draw(st.booleans())
     cs["perm"] = draw(st.integers(0, 10 ** 6))
+    cs["shift"] = draw(st.sampled_from([None, None, None, 12345.678, 98765.4321, 1234.5678]))
     return cs
 
 
